@@ -8,7 +8,7 @@ CONSTANTS Depth
 Classes == {"identifier", "field", "unexported", "method", "nilderef", "mapfield-ok", "index-range", "index-len", "index-empty", "index-neg", "index-str", "index-strlen", "index-kind", "index-nil",
             "slice-bound", "slice-kind", "operand-mul", "operand-add", "operand-neg", "operand-cmp", "calltarget", "calltarget-nil",
             "argcount", "argcount-jetfunc", "argtype", "arg-invalid", "underscore", "underscore-jetfunc", "underscore-variadic", "argcount-variadic", "func",
-            "len-kind", "ints-range", "pipe-nonfunc"}
+            "len-kind", "ints-range", "pipe-nonfunc", "argcount-piped-jetfunc", "argcount-piped"}
 Positions == {"print", "let", "set", "ifcond", "iflet", "rangecoll", "yieldarg", "yieldctx", "ycontentctx", "includectx", "return", "execctx", "yieldnoval", "yieldnoval0"}
 Places == {"main", "layout"}
 PosKinds == {"include", "ycont", "ybody", "blockdef", "range", "iflet", "tryin", "exec", "includectx"}
@@ -54,6 +54,6 @@ MkC(par) ==
 cParams == {p \in PathsUpTo(PosKinds, Depth) \X Classes \X Positions \X Places \X (0..1) :
               /\ (p[5] = 1 => p[3] = "print")
               /\ (p[3] \in {"yieldnoval", "yieldnoval0"} => p[2] = "identifier")
-              /\ (p[2] \in {"pipe-nonfunc", "safewriter-notlast"} => p[3] = "print")
+              /\ (p[2] \in {"pipe-nonfunc", "safewriter-notlast", "argcount-piped-jetfunc", "argcount-piped"} => p[3] = "print")
               /\ (p[4] = "layout" => p[3] \in {"print", "let", "yieldarg"})}
 =============================================================================
